@@ -14,7 +14,12 @@ IN_CONTRACT = [
     ("C03", r"tree\.(set\.q3|rem\.q5|iter\.q5|get\.q4)$"),
     ("C04", r"array\.(push\.n2|pop\.n3|sort\.n2\+1|getset\.n2|iter\.n3|resize\.n3|push_at\.n2\+1\.i1|pop_at\.n3\.i-1|concat\.n1\.m2|assign\.n2\+1\.m1)"),
     ("C16", r"string\.(concat|rem|resize|mem)\.s3a2"),
+    ("C04", r"tuple\.(getset\.n2|iter\.n3|push_at\.n2\.i-1|pop_at\.n2\.i-2|assign\.n2m1|cmphash\.n2m2)$|list\.(getset|iter|push|pop)\.n2$"),
 ]
+# obligations that are configuration-specific by construction (the layout / collector they exercise only exists there)
+def native_cfg():
+    out = pick("C08", r"runtime_type\.(nocache|ndebug)", tiers=None) + pick("C17", r"alloc_layer\.case[12]\.(ndebug|ngc)", tiers=None) + pick("C20", r"file\.lifecycle\.(3|4|013)\.ndebug", tiers=None)
+    return out
 def family(cfg, tiers, subset=None):
     out = []
     for mod, pat in IN_CONTRACT:
@@ -33,7 +38,7 @@ T = ("thorough",)
 OBLIGATIONS = (
     family("ndebug", Q) + family("nocache", Q, subset=("C09", "C10", "C11", "C16")) + family("ngc", Q, subset=("C09", "C16"))
     + family("nocache", T, subset=("C02", "C03", "C04")) + family("ngc", T, subset=("C10", "C11", "C02", "C03", "C04"))
-    + family("ndebug_nocache", T) + family("ndebug_ngc", T)
+    + family("ndebug_nocache", T) + family("ndebug_ngc", T) + native_cfg()
 )
 LEVEL_TEXT = ("Bounded model checking, equivalence by transitivity through reference models: the in-contract obligations of C02/C03/C04/C09/C10/C11/C16 are re-decided with library and unit compiled under "
               "CELLO_NDEBUG (smaller headers, checks compiled out), CELLO_CACHE=0 (method cache off), CELLO_NGC and combinations. Optimisation levels are NOT covered: cbmc interprets C semantics, not generated "
